@@ -1,2 +1,6 @@
+"""R-CB (callback-before-leave) of C05 is implemented with the cursor rules of C10."""
+
+
 def rule_cb(S):
-    pass
+    from checks.C10 import rule_cb as cb
+    cb(S, rule='R-CB')
